@@ -391,3 +391,9 @@ mod serde_support {
 		}
 	}
 }
+
+/// Verification-only access to the serde wire enums (enabled only under the Kani compiler).
+#[cfg(all(kani, feature = "serde"))]
+pub mod verif {
+	pub use crate::serde_support::{NamedSignal, SerdeSignal};
+}
